@@ -62,7 +62,7 @@ ObsCall(e) ==
   ELSE /\ ops' = ops @@ (e.op :> [o |-> e.o, dir |-> e.dir, st |-> "run", ret |-> FALSE, err |-> "",
                                    late |-> (e.o \in DOMAIN ost /\ ost[e.o] # "open"),
                                    all |-> e.api = "readall",    \* one operation that moves e.n units
-                                   big |-> e.api \in {"writetobig", "readfromempty"}]) \* a datagram too large to send / a read that meets an empty datagram: fails at once
+                                   big |-> e.api \in {"writetobig", "readfromempty", "acceptbad"}]) \* a datagram too large to send / a read that meets an empty datagram: fails at once
        /\ UNCHANGED <<kinds, cls, lim, base, ost, csnap, tm, posted, ranp, anomaly, rnext, bad>>
 
 ObsRet(e) ==
@@ -84,11 +84,12 @@ ObsCbB(e) ==
     \* a successful read / accept / datagram read delivers the oldest unit the peer queued (tokens count up
     \* per object); in a chain this is "the result it would have had inline"
     ELSE IF r.dir = "R" /\ e.err = "nil" /\ e.n > 0 /\ e.tok # rnext[r.o] /\ cls = "chain" /\ "C14" \in Focus
+            /\ anomaly # "datagram-lost"     \* (a datagram the environment sent never showed up at the socket)
          THEN Fail("C14/deferred-result/" \o Kind(r.o) \o ":wrong-unit")
     ELSE /\ rnext' = IF r.dir = "R" /\ e.err = "nil" /\ e.n > 0 THEN [rnext EXCEPT ![r.o] = e.tok + (IF r.all THEN e.n ELSE 1)] ELSE rnext
          /\ ops' = [ops EXCEPT ![e.op].st = "done", ![e.op].err = e.err]
          /\ ranp' = IF ranp = "" THEN "" ELSE "y"
-         /\ anomaly' = IF anomaly = "descriptor-replaced" THEN anomaly
+         /\ anomaly' = IF anomaly \in {"descriptor-replaced", "datagram-lost"} THEN anomaly
                        ELSE IF IsErrno(e.err) /\ ~r.ret THEN "failed-registration:" \o Kind(r.o)
                        ELSE IF IsErrno(e.err) THEN "errno-completion:" \o Kind(r.o) ELSE anomaly
          /\ UNCHANGED <<kinds, cls, lim, base, ost, csnap, tm, posted, bad>>
@@ -254,7 +255,10 @@ Obs(e) ==
     [] e.ev = "CancelE"  -> ObsCancelE(e)
     [] e.ev = "CloseB"   -> ObsCloseB(e)
     [] e.ev = "CloseE"   -> ObsCloseE(e)
-    [] e.ev = "Env"      -> IF e.api = "yank" /\ anomaly = ""
+    [] e.ev = "Env"      -> IF e.api = "send-lost" /\ anomaly = ""
+                              THEN /\ anomaly' = "datagram-lost"
+                                   /\ UNCHANGED <<kinds, cls, lim, base, ost, ops, csnap, tm, posted, ranp, rnext, bad>>
+                              ELSE IF e.api = "yank" /\ anomaly = ""
                               THEN /\ anomaly' = "descriptor-replaced"
                                    /\ UNCHANGED <<kinds, cls, lim, base, ost, ops, csnap, tm, posted, ranp, rnext, bad>>
                               ELSE Skip
